@@ -26,3 +26,32 @@ Example C05_example :
   let h := [Slice 3; Reload; Slice 2; Reload; Reload; Slice 1] in
   fst (run_history _ _ step save load h (0, 0)) = fst (iter _ step (batches h) (0, 0)) /\ batches h = 6.
 Proof. vm_compute. split; reflexivity. Qed.
+
+(* ---- the checkpoint protocol of the sampler itself (SamplerCodec.v) ---- *)
+Require Import NV.Codec NV.SamplerCodec NV.SamplerCodecProofs NV.Shell2 NV.Shell2Thm.
+
+(* an incremental update (write_shell_update) of the file left by the last full write yields exactly the file a full
+   write of the newer state would yield, provided the newer state differs only in what batches on `shell` and discard
+   toggles can change: everything except the static configuration, `explored`, the exploration counters, the other
+   shells' arrays and the other bounds' groups *)
+Theorem C05_update_full_write : forall shell s0 s1, wf_file s1 -> shell < length (sf_points s1) -> batch_frame shell s0 s1 ->
+  upd_file (write_file s0) s1 shell = write_file s1.
+Proof. exact update_is_full_write. Qed.
+Print Assumptions C05_update_full_write.
+
+(* and that is all a batch or a toggle changes in the shell machine: one shell (its bound, exploration counters and
+   position unchanged), the transfer marks and n_like -- resp. only the flag *)
+Theorem C05_batch_frame : forall contains in_cube lik blob n_batch s idx rounds vals s',
+  step contains in_cube lik blob n_batch s (EvAddSamples idx rounds vals) = Some s' ->
+  exists i, (match idx with Some k => i = k | None => S i = length (shells s) end) /\
+    (forall j, j <> i -> nth_error (shells s') j = nth_error (shells s) j) /\
+    (forall sh sh', nth_error (shells s) i = Some sh -> nth_error (shells s') i = Some sh' ->
+        bnd sh' = bnd sh /\ nsample_exp sh' = nsample_exp sh /\ end_exp sh' = end_exp sh) /\
+    length (shells s') = length (shells s) /\ explored s' = explored s /\ discard s' = discard s /\
+    t_pts s' = t_pts s /\ t_lls s' = t_lls s /\ t_bls s' = t_bls s.
+Proof. exact batch_frame_abs. Qed.
+Print Assumptions C05_batch_frame.
+Theorem C05_toggle_frame : forall contains in_cube lik blob n_batch s d s', step contains in_cube lik blob n_batch s (EvSetDiscard d) = Some s' ->
+  shells s' = shells s /\ explored s' = explored s /\ n_like s' = n_like s /\ t_pts s' = t_pts s /\ t_from s' = t_from s.
+Proof. exact toggle_frame_abs. Qed.
+Print Assumptions C05_toggle_frame.
